@@ -181,10 +181,10 @@ class WorldCheck:
         self._ast[key] = res
         return res
 
-    def request(self, scen, pats, result, dry=False, syntax=False, stdin=False):
+    def request(self, scen, pats, result, dry=False, syntax=False, stdin=False, relative=False):
         blocks = self.blocks(scen, pats)
         confok = blocks is not None
-        env, files, devs, tr, notes = self._parts(scen, result, dry, syntax, stdin, confok)
+        env, files, devs, tr, notes = self._parts(scen, result, dry, syntax, stdin, confok, relative=relative)
         req = 'M conform %s %s %s %s %s %s' % (blob(env), blob('\n'.join(blocks or [])), files, blob(devs),
                                                 hx(scen.stdin or b''), blob('\n'.join(tr)))
         return req, tr, notes
@@ -212,10 +212,10 @@ class WorldCheck:
     def _parts(self, scen, result, dry, syntax, stdin, confok, relative=False):
         """relative: the abstract file system names every directory relative to the sandbox root, which is the working directory of the
         run (scenarios whose configuration names its maildirs by relative paths; absolute and relative names of one directory would be
-        two directories to the model)."""
+        two directories to the model); the run was started with `-f conf`."""
         env = ' '.join([proc.PIN['VSHIM_TIME'], proc.PIN['VSHIM_PID'], hx(proc.PIN['VSHIM_HOST'].encode()), proc.PIN['VSHIM_RANDOM'],
                         hx(os.path.join(scen.root, 'tmp').encode()), hx(os.path.join(scen.root, 'home').encode()),
-                        hx(os.path.join(scen.root, 'conf').encode()), '1' if dry else '0', '1' if syntax else '0', '1' if stdin else '0',
+                        hx(b'conf' if relative else os.path.join(scen.root, 'conf').encode()), '1' if dry else '0', '1' if syntax else '0', '1' if stdin else '0',
                         '1' if confok else '0'])
         files = []
         dirs = set()
